@@ -923,4 +923,70 @@ Proof.
   eapply lperm_trans; [exact F|]. eapply lperm_trans; [apply lperm_set_alloc|exact IH].
 Qed.
 
+(* releaseEmptyBlocksCreatedSince *)
+Definition released (l l' : blist) (firstId : Z) (bids : list Z) : Prop :=
+  cfg_eq l l' /\ bl_next l' = bl_next l /\
+  (forall b, In b (bl_blocks l') -> In b (bl_blocks l)) /\
+  (forall b, In b (bl_blocks l) -> bk_id b < firstId \/ emp b = false -> In b (bl_blocks l')) /\
+  NoDup (ids l') /\
+  (bl_min l <= zlen (bl_blocks l) -> bl_min l <= zlen (bl_blocks l')) /\
+  (zlen (bl_blocks l') <= bl_min l \/ forall b, In b (bl_blocks l') -> In (bk_id b) bids -> firstId <= bk_id b -> emp b = false).
+
+Lemma release_loop_eff bids : forall v lr l firstId,
+  get_blist v lr = Some l -> NoDup (ids l) ->
+  let '(v', r) := release_loop c v lr bids firstId in
+  match r with
+  | OK _ => v_tab v' = v_tab v /\ (forall lr0, lr0 <> lr -> get_blist v' lr0 = get_blist v lr0) /\
+            exists l', get_blist v' lr = Some l' /\ released l l' firstId bids
+  | _ => True
+  end.
+Proof.
+  induction bids as [|bid tl IH]; intros v lr l firstId Hg Hnd; cbn [release_loop].
+  - split; [reflexivity|]. split; [auto|]. exists l. split; [exact Hg|]. split; [apply cfg_eq_refl|]. split; [reflexivity|].
+    split; [auto|]. split; [auto|]. split; [exact Hnd|]. split; [auto|]. right. intros b _ [].
+  - rewrite Hg. destruct (negb (bl_min l <? zlen (bl_blocks l))) eqn:Emin.
+    { split; [reflexivity|]. split; [auto|]. exists l. split; [exact Hg|]. split; [apply cfg_eq_refl|]. split; [reflexivity|].
+      split; [auto|]. split; [auto|]. split; [exact Hnd|]. split; [auto|]. left. apply negb_true_iff in Emin. apply Z.ltb_ge in Emin. exact Emin. }
+    destruct (find_block (bl_blocks l) bid) as [b|] eqn:Hf; [|exact I]. destruct (find_block_in _ _ _ Hf) as (Hb & Hid).
+    destruct ((bk_id b <? firstId) || negb (meta_is_empty (bk_meta b))) eqn:Eskip.
+    + (* skipped *)
+      specialize (IH v lr l firstId Hg Hnd). destruct (release_loop c v lr tl firstId) as (v' & r). destruct r as [[]|code| |]; try exact I.
+      destruct IH as (T & Ho & l' & Hg' & (R1 & R2 & R3 & R4 & R5 & R6 & R7)). split; [exact T|]. split; [exact Ho|]. exists l'. split; [exact Hg'|].
+      split; [exact R1|]. split; [exact R2|]. split; [exact R3|]. split; [exact R4|]. split; [exact R5|]. split; [exact R6|].
+      destruct R7 as [R7|R7]; [left; exact R7|right]. intros b0 Hb0 [E|Hin] Hge; [|apply R7; auto].
+      assert (b0 = b).
+      { pose proof (in_find_block _ _ Hnd (R3 _ Hb0)) as F0. rewrite E in Hf. congruence. }
+      subst b0. apply orb_true_iff in Eskip. destruct Eskip as [E1|E1]; [apply Z.ltb_lt in E1; lia|apply negb_true_iff in E1; exact E1].
+    + (* released *)
+      apply orb_false_iff in Eskip. destruct Eskip as (E1 & E2). apply Z.ltb_ge in E1. apply negb_false_iff in E2.
+      set (l1 := set_blocks l (remove_block (bl_blocks l) bid)). set (v1 := set_blist v lr l1).
+      assert (Hg1 : get_blist v1 lr = Some l1) by (unfold v1; eapply get_set_blist_same; eauto).
+      assert (Hnd1 : NoDup (ids l1)) by (unfold ids, l1; cbn; apply remove_block_nodup; exact Hnd).
+      unfold destroy_block. fold (emp b). unfold emp. rewrite E2. cbn [negb].
+      destruct (free_vk c (v_m v1) (bl_type l) (meta_size (bk_meta b)) (bk_mem b)) as (m2 & fr).
+      destruct fr as [[]|code| |]; try exact I.
+      specialize (IH (set_m v1 m2) lr l1 firstId ltac:(rewrite get_blist_set_m; exact Hg1) Hnd1).
+      destruct (release_loop c (set_m v1 m2) lr tl firstId) as (v' & r). destruct r as [[]|code| |]; try exact I.
+      destruct IH as (T & Ho & l' & Hg' & (R1 & R2 & R3 & R4 & R5 & R6 & R7)).
+      split; [rewrite T; cbn; unfold v1; apply set_blist_tab|].
+      split; [intros lr0 Hne; rewrite (Ho lr0 Hne), get_blist_set_m; unfold v1; apply get_set_blist_other; congruence|].
+      exists l'. split; [exact Hg'|].
+      assert (Hrm : forall x, In x (bl_blocks l1) <-> In x (bl_blocks l) /\ bk_id x <> bid).
+      { intros x. unfold l1. cbn. split.
+        - intros H. split; [eapply in_remove_block; eauto|exact (in_remove_block_ne _ _ _ Hnd H)].
+        - intros (H & Hn). apply remove_block_keeps; auto. }
+      destruct (cnt_remove (bl_blocks l) b Hnd Hb) as (_ & Zr). rewrite Hid in Zr.
+      apply negb_false_iff in Emin. apply Z.ltb_lt in Emin.
+      split; [eapply cfg_eq_trans; [apply cfg_eq_set_blocks|exact R1]|]. split; [rewrite R2; reflexivity|].
+      split; [intros x Hx; apply Hrm; apply R3; exact Hx|].
+      split.
+      { intros x Hx Hor. apply R4; [apply Hrm; split; [exact Hx|]|exact Hor].
+        intros E. assert (x = b) by (pose proof (in_find_block _ _ Hnd Hx) as F0; rewrite E in F0; congruence). subst x.
+        destruct Hor as [H|H]; [lia|unfold emp in H; congruence]. }
+      split; [exact R5|]. split.
+      { intros _. apply R6. unfold l1. cbn [bl_blocks set_blocks bl_min]. lia. }
+      destruct R7 as [R7|R7]; [left; exact R7|right]. intros b0 Hb0 [E|Hin] Hge; [|apply R7; auto].
+      exfalso. destruct (proj1 (Hrm b0) (R3 _ Hb0)) as (_ & Hn). congruence.
+Qed.
+
 End WithCfg.
